@@ -327,7 +327,7 @@ func (rule *RuleExpression) getActionOutputsType(spec *String) *ObjectType {
 	if strings.HasPrefix(spec.Value, "./") {
 		meta, _, err := rule.localActions.FindMetadata(spec.Value)
 		if err != nil {
-			rule.Error(spec.Pos, err.Error())
+			rule.Error(spec.Pos, escapeNonPrint(err.Error()))
 			return NewMapObjectType(StringType{})
 		}
 		if meta == nil {
@@ -359,7 +359,7 @@ func (rule *RuleExpression) getWorkflowCallOutputsType(call *WorkflowCall) *Obje
 
 	m, err := rule.localWorkflows.FindMetadata(call.Uses.Value)
 	if err != nil {
-		rule.Error(call.Uses.Pos, err.Error())
+		rule.Error(call.Uses.Pos, escapeNonPrint(err.Error()))
 		return NewMapObjectType(StringType{})
 	}
 	if m == nil {
@@ -518,7 +518,7 @@ func (rule *RuleExpression) checkWorkflowCall(c *WorkflowCall) {
 
 	m, err := rule.localWorkflows.FindMetadata(c.Uses.Value)
 	if err != nil {
-		rule.Error(c.Uses.Pos, err.Error())
+		rule.Error(c.Uses.Pos, escapeNonPrint(err.Error()))
 	}
 
 	for n, i := range c.Inputs {
